@@ -475,6 +475,10 @@ theorem inv_stepValue {s : State} (h : Inv s) : Inv (stepValue s).1 := by
   unfold stepValue
   repeat (first | exact h | split)
 
+theorem inv_stepActive {s : State} (h : Inv s) : Inv (stepActive s).1 := by
+  unfold stepActive
+  repeat (first | exact h | split)
+
 theorem inv_anextGo {s : State} (h : Inv s) (hal : s.alive = true) (hc : s.caller = .none) (hns : inSync s = false)
     (a : Nat) : Inv (anextGo (setArg s a)).1 := by
   obtain ⟨hm, hst, hcp, hfp⟩ := idle_facts h hc
@@ -680,6 +684,7 @@ theorem inv_step {s : State} (h : Inv s) (op : Op) : Inv (step s op).1 := by
   | syncBegin a => exact inv_stepSyncBegin h _ a
   | syncEnd => exact inv_stepSyncEnd h
   | value => exact inv_stepValue h
+  | active => exact inv_stepActive h
   | anext a => exact inv_stepAnext h a
   | sub a => exact inv_stepSub h a
   | call a => exact inv_stepCall h a
@@ -762,6 +767,7 @@ theorem konst_step (s : State) (op : Op) : konst (step s op).1 = konst s := by
   case syncBegin a => unfold stepSyncBegin; repeat (first | rfl | (rw [konst_syncGo, konst_setArg]) | split)
   case syncEnd => unfold stepSyncEnd; repeat (first | rfl | (rw [konst_endSync]; rfl) | split)
   case value => unfold stepValue; repeat (first | rfl | split)
+  case active => unfold stepActive; repeat (first | rfl | split)
   case anext a =>
     unfold stepAnext anextGo
     repeat (first | rfl | (dsimp only; rw [konst_resumeBody]; exact konst_setArg _ _) | exact konst_setArg _ _ | split)
@@ -875,6 +881,7 @@ theorem step_not_run (s : State) (op : Op) (h : s.bst ≠ .run) : (step s op).1.
   case syncBegin a => unfold stepSyncBegin; repeat (first | exact h | exact syncGo_not_run _ _ (hs _) | split)
   case syncEnd => unfold stepSyncEnd; repeat (first | exact h | (simpa using h) | split)
   case value => unfold stepValue; repeat (first | exact h | split)
+  case active => unfold stepActive; repeat (first | exact h | split)
   case anext a =>
     unfold stepAnext anextGo
     repeat (first | exact h | exact hs _ | exact resumeBody_not_run _ (hs _) | split)
